@@ -3,7 +3,10 @@
 package api
 
 import (
+	"encoding/json"
 	"fmt"
+	"io"
+	"net/http"
 	"net/http/httptest"
 	"net/url"
 	"os"
@@ -14,13 +17,75 @@ import (
 	"testing"
 	"time"
 
+	amp4 "github.com/abema/go-mp4"
+	"github.com/bluenviron/mediacommon/v2/pkg/formats/fmp4"
+	"github.com/bluenviron/mediacommon/v2/pkg/formats/fmp4/seekablebuffer"
+	mcodecs "github.com/bluenviron/mediacommon/v2/pkg/formats/mp4/codecs"
 	"github.com/gin-gonic/gin"
+	"github.com/google/uuid"
 
 	"github.com/bluenviron/mediamtx/internal/conf"
 	"github.com/bluenviron/mediamtx/internal/logger"
+	"github.com/bluenviron/mediamtx/internal/playback"
 	"github.com/bluenviron/mediamtx/internal/recordstore"
+	"github.com/bluenviron/mediamtx/internal/test"
 	"github.com/bluenviron/mediamtx/internal/verifutil"
 )
+
+const verifC31PlaybackAddr = "127.0.0.1:39431"
+
+var verifC31Playback *playback.Server
+
+func verifC31PlaybackServer(pcs map[string]*conf.Path) {
+	if verifC31Playback == nil {
+		s := &playback.Server{
+			Address: verifC31PlaybackAddr, ReadTimeout: conf.Duration(10 * time.Second), WriteTimeout: conf.Duration(10 * time.Second),
+			PathConfs: pcs, AuthManager: test.NilAuthManager, Parent: verifC31Parent{},
+		}
+		if err := s.Initialize(); err != nil {
+			panic("verif: cannot start the playback server on " + verifC31PlaybackAddr + ": " + err.Error())
+		}
+		verifC31Playback = s
+	}
+	verifC31Playback.ReloadPathConfs(pcs)
+}
+
+// a segment as the recorder writes it: one H264 track, one 2 s sample, mtxi box with the given NTP (ns)
+func verifC31WriteSegment(full string, ntpNs int64, n int) {
+	init := fmp4.Init{
+		Tracks: []*fmp4.InitTrack{{ID: 1, TimeScale: 90000, Codec: &mcodecs.H264{SPS: test.FormatH264.SPS, PPS: test.FormatH264.PPS}}},
+		UserData: []amp4.IBox{&recordstore.Mtxi{
+			StreamID: uuid.MustParse(fmt.Sprintf("31564107-9e7e-4923-bf2f-%012d", n)), SegmentNumber: 0, DTS: 0, NTP: ntpNs,
+		}},
+	}
+	var b1, b2 seekablebuffer.Buffer
+	if err := init.Marshal(&b1); err != nil {
+		panic(err)
+	}
+	parts := fmp4.Parts{{Tracks: []*fmp4.PartTrack{{ID: 1, BaseTime: 0, Samples: []*fmp4.Sample{{Duration: 2 * 90000, Payload: []byte{1, 2}}}}}}}
+	if err := parts.Marshal(&b2); err != nil {
+		panic(err)
+	}
+	os.MkdirAll(filepath.Dir(full), 0o755) //nolint:errcheck
+	if err := os.WriteFile(full, append(b1.Bytes(), b2.Bytes()...), 0o644); err != nil {
+		panic(err)
+	}
+}
+
+func verifC31Ns(ts []time.Time) string {
+	if len(ts) == 0 {
+		return "-"
+	}
+	l := make([]string, len(ts))
+	for i, t := range ts {
+		l[i] = fmt.Sprintf("%020d", t.UnixNano())
+	}
+	sort.Strings(l)
+	for i := range l {
+		l[i] = strings.TrimLeft(l[i], "0")
+	}
+	return strings.Join(l, ",")
+}
 
 const verifC31Root = "/tmp/vc31t"
 
@@ -103,6 +168,76 @@ func verifC31Exec(op string) string {
 		}
 		sort.Strings(l)
 		return strings.Join(l, ",")
+	case "at":
+		// at <zone> <fmtHex> <nameHex> <queryUs> <files> | <cal table>: FindSegments with a start bound (playback get/list)
+		verifC31SetLocal(f[1])
+		verifC31Tree(f[5])
+		cnf := verifC31Conf(verifutil.UnHexS(f[2]))
+		st := time.UnixMicro(verifutil.AtoI64(f[4]))
+		segs, err := recordstore.FindSegments(cnf.Paths["all_others"], verifutil.UnHexS(f[3]), &st, nil)
+		if err != nil {
+			return "none"
+		}
+		var l []string
+		for _, s := range segs { // keep the order FindSegments returns
+			rel, _ := filepath.Rel(verifC31Root, s.Fpath)
+			l = append(l, fmt.Sprintf("%s@%d", verifutil.HexS(rel), s.Start.UnixMicro()))
+		}
+		return strings.Join(l, ",")
+	case "plist":
+		// plist <zone> <fmtHex> <nameHex> <relHex@startUs@ntpNs,…> | <cal table>: playback /list vs API recordings/get
+		verifC31SetLocal(f[1])
+		verifC31Tree("-")
+		for n, e := range strings.Split(f[4], ",") {
+			p := strings.Split(e, "@")
+			full := filepath.Join(verifC31Root, verifutil.UnHexS(p[0]))
+			if !strings.HasPrefix(full, verifC31Root+"/") {
+				panic("refusing to create a file outside the sandbox")
+			}
+			verifC31WriteSegment(full, verifutil.AtoI64(p[2]), n)
+		}
+		cnf := verifC31Conf(verifutil.UnHexS(f[2]))
+		name := verifutil.UnHexS(f[3])
+		verifC31PlaybackServer(cnf.Paths)
+		pb := "err"
+		resp, err := http.Get("http://" + verifC31PlaybackAddr + "/list?path=" + url.QueryEscape(name))
+		if err == nil {
+			body, _ := io.ReadAll(resp.Body)
+			resp.Body.Close()
+			var entries []struct {
+				Start time.Time `json:"start"`
+			}
+			if resp.StatusCode == 200 && json.Unmarshal(body, &entries) == nil {
+				ts := make([]time.Time, len(entries))
+				for i, e := range entries {
+					ts[i] = e.Start
+				}
+				pb = verifC31Ns(ts)
+			} else {
+				pb = fmt.Sprintf("http%d", resp.StatusCode)
+			}
+		}
+		a := &API{Parent: verifC31Parent{c: cnf}}
+		gin.SetMode(gin.ReleaseMode)
+		rec := httptest.NewRecorder()
+		ctx, _ := gin.CreateTestContext(rec)
+		ctx.Request = httptest.NewRequest("GET", "/v3/recordings/get/x", nil)
+		ctx.Params = gin.Params{{Key: "name", Value: "/" + name}}
+		a.onRecordingsGet(ctx)
+		ap := fmt.Sprintf("http%d", rec.Code)
+		var out struct {
+			Segments []struct {
+				Start time.Time `json:"start"`
+			} `json:"segments"`
+		}
+		if rec.Code == 200 && json.Unmarshal(rec.Body.Bytes(), &out) == nil {
+			ts := make([]time.Time, len(out.Segments))
+			for i, e := range out.Segments {
+				ts[i] = e.Start
+			}
+			ap = verifC31Ns(ts)
+		}
+		return pb + " " + ap
 	case "del":
 		// del <zone> <fmtHex> <nameHex> <startStrHex> <targetUs> <files> | Fo(9) | Fl(9)
 		verifC31SetLocal(f[1])
@@ -262,6 +397,40 @@ func verifC31Gen(r *verifutil.Rand, i int, thorough bool) []string {
 
 	ops := []string{"reset", fmt.Sprintf("list %s %s %s %s | %s", zone, verifutil.HexS(format), verifutil.HexS(name), files, calS)}
 
+	// playback's start bound: the listed start of each segment must identify that segment; plus instants in between
+	if len(segs) > 0 {
+		var qs []int64
+		for _, sg := range segs {
+			q := sg.us
+			if !hasF {
+				q -= ((q % 1000000) + 1000000) % 1000000
+			}
+			qs = append(qs, q)
+		}
+		qs = append(qs, qs[r.Intn(len(qs))]+int64(1+r.Intn(3000000)), qs[r.Intn(len(qs))]-int64(1+r.Intn(3000000)))
+		for k := 0; k < 2 && len(qs) > 0; k++ {
+			j := r.Intn(len(qs))
+			ops = append(ops, fmt.Sprintf("at %s %s %s %d %s | %s", zone, verifutil.HexS(format), verifutil.HexS(name), qs[j], files, calS))
+			qs = append(qs[:j], qs[j+1:]...)
+		}
+		// playback /list against the API listing, on real fMP4 segments whose header NTP has nanoseconds (as the
+		// recorder writes them), sometimes an unrelated or absent NTP (copied / legacy files)
+		if r.Chance(1, 2) {
+			var pc []string
+			for _, sg := range segs {
+				ntp := sg.us*1000 + int64(r.Intn(1000))
+				switch r.Intn(8) {
+				case 0:
+					ntp = 0
+				case 1:
+					ntp += int64(1+r.Intn(7200)) * 1000000000
+				}
+				pc = append(pc, fmt.Sprintf("%s@%d@%d", verifutil.HexS(sg.rel), sg.us, ntp))
+			}
+			ops = append(ops, fmt.Sprintf("plist %s %s %s %s | %s", zone, verifutil.HexS(format), verifutil.HexS(name), strings.Join(pc, ","), calS))
+		}
+	}
+
 	// requests: the target instant (and sometimes an instant with no segment), written with offset wOff
 	targets := []int64{starts[0]}
 	if r.Chance(1, 3) {
@@ -290,7 +459,7 @@ func TestVerifC31(t *testing.T) {
 	saved := time.Local
 	defer func() { time.Local = saved }()
 	verifutil.Main(t, &verifutil.Harness{
-		ID: "C31", Exec: verifC31Exec, Gen: verifC31Gen, Quick: 700, Thorough: 15000,
+		ID: "C31", Exec: verifC31Exec, Gen: verifC31Gen, Quick: 450, Thorough: 12000,
 		Class: func(op, impl string) string {
 			f := strings.Fields(op)
 			switch f[0] {
@@ -301,6 +470,13 @@ func TestVerifC31(t *testing.T) {
 					d = "nothing"
 				}
 				return "del/" + a[0] + "/" + d
+			case "at":
+				if impl == "none" {
+					return "at/none"
+				}
+				return "at/segments"
+			case "plist":
+				return "plist"
 			case "list":
 				if impl == "none" {
 					return "list/none"
